@@ -26,6 +26,14 @@ def parseOther (s : String) : Option OtherDef :=
     | _ => none
   else none
 
+/-- a variable of the request: `<type>` (local of `t`) or `<g|s|p>:<type>` (extern global, static global, parameter of `t`);
+    the kind only decides how the harness spells the declaration, the typing rules see the declared type -/
+def parseVar (s : String) : Option Ty :=
+  match s.splitOn ":" with
+  | [t] => parseTy t
+  | [k, t] => if k == "g" || k == "s" || k == "p" then parseTy t else none
+  | _ => none
+
 /-- two array definitions must not coincide: array types are hash-consed in the implementation -/
 def arraysCanonical : List OtherDef → Bool
   | [] => true
@@ -36,7 +44,7 @@ def arraysCanonical : List OtherDef → Bool
 def parseEnvX (others vars funcs ret : String) : Option Env := do
   let os ← sequenceOpt ((if others == "-" then [] else others.splitOn ";").map parseOther)
   if !arraysCanonical os then none
-  let vs ← sequenceOpt ((if vars == "-" then [] else vars.splitOn ",").map parseTy)
+  let vs ← sequenceOpt ((if vars == "-" then [] else vars.splitOn ",").map parseVar)
   let fs ← sequenceOpt ((if funcs == "-" then [] else funcs.splitOn ";").map parseFunc)
   let r ← if ret == "void" then some none else (parseTy ret).map some
   pure { vars := vs, funcs := intrinsicFuncs os.length ++ fs, ret := r, others := os ++ [.void], templates := templateNames }
